@@ -8,7 +8,7 @@ from vlib.world import W
 
 CORPUS = ["", " a ", "a ", " a", "a\nb", "\r\n", "'", '"', "'\"", "é", "\x00", "\U0001F600", "  ", "\ta", "a\t", "\n", " \n", "a\n", "\na", "a\n\nb", "x" * 100,
           "\\", "a\\", "\\n", "#", "# c", " # c ", "\x0c", "\x1b[0m", "a\rb", " ", "'''", '"""', 'a"""b\n\'\'\'c', "a\nb'''\"\"\"", "'''\n\"\"\"'", "\ud800", "\x7f\x80\xa0\xad",
-          "line one \nline two  \n\n  three", "tab\there\n\tand there", "{}", "%s", "\N{ZERO WIDTH SPACE}\n\N{LINE SEPARATOR}x",
+          "line one \nline two  \n\n  three", "tab\there\n\tand there", "{}", "%s", "x_ = y", "_ = 1", "a = 'b'  # c", "def f():\n    return 1\n", "snapshot(1)", "import os\n_ = os\n", "\N{ZERO WIDTH SPACE}\n\N{LINE SEPARATOR}x",
           b"", b" a ", b"\n", b"a\nb\nc", b"'\"", b"\x00\xff", b"x" * 90]
 
 T = '''from inline_snapshot import snapshot
